@@ -92,6 +92,13 @@ def ref_call(call):
     from nbdime.nbmergeapp import _build_arg_parser
     cwd, urls = call["cwd"], call.get("urls") or {}
     try:
+        if call.get("flags"):
+            # the server was started with diff options (nbdiff-web -O, nbmerge-web -s ...): the library is consulted
+            # under the same options, set the way the command line tools set them
+            import nbdime.nbdiffapp as nbdiffapp
+            from nbdime.args import process_diff_flags
+            sys.argv[0] = "nbdiff"
+            process_diff_flags(nbdiffapp._build_arg_parser(prog="nbdiff").parse_args(list(call["flags"]) + ["x", "y"]))
         if call["op"] == "diff":
             base = _read_like_server(cwd, call["base"], urls)
             remote = _read_like_server(cwd, call["remote"], urls)
@@ -193,6 +200,13 @@ def generate(rng, index, cfg):
              "disk_faults": rng.random() < 0.25}
     files = world["files"]
     upload_pool = [files["a.ipynb"], files["b.ipynb"], nbgen.notebook(rng, max_cells=2)]
+    # diff options given at start-up (they select what /api/diff and /api/merge report, never what /api/store writes)
+    world["start_flags"] = []
+    if mode != "server" and rng.random() < 0.25:
+        world["start_flags"] = rng.choice([["-O"], ["--ignore-outputs"], ["-s"], ["-M"], ["-D"], ["-S"], ["-o"], ["-A", "-I"], ["-m"]])
+    # a submission that differs from what the output file already holds only in outputs, counts and metadata (the
+    # user re-ran cells, or resolved a conflict in an output)
+    upload_pool.append(nbgen.edit(rng, files["b.ipynb"], n_edits=rng.randint(1, 3), kinds=["out", "ec", "md", "outmeta", "nbmd"]))
     if rng.random() < 0.25:
         big = nbgen.notebook(rng, max_cells=3, minor=4)
         big["cells"].append({"cell_type": "markdown", "metadata": {}, "source": "".join(rng.choice(nbgen.VOCAB) for _ in range(rng.choice([500, 3000])))})
@@ -542,6 +556,8 @@ class Runner:
         tw = self.trace["world"]
         from nbdime.webapp import nbdimeserver, nbdiffweb, nbdifftool, nbmergeweb, nbmergetool
         common = ["--base-url", tw["base_url"]]
+        if tw.get("start_flags") and tw["mode"] != "server":
+            common = list(tw["start_flags"]) + common
         if tw["wd_flag"]:
             common += ["-w", self.w.work]
         if tw["persist"]:
@@ -569,7 +585,8 @@ class Runner:
         env = {k: os.environ[k] for k in ("PATH", "HOME", "TMPDIR", "JUPYTER_CONFIG_DIR", "JUPYTER_CONFIG_PATH", "JUPYTER_PATH", "JUPYTER_DATA_DIR")
                if k in os.environ}
         self.stat("ref_forks")
-        return refserver.call(srv.sock_path, dict(call, cwd=self.w.work, urls=self.urls), env=env, cwd=self.w.work)
+        return refserver.call(srv.sock_path, dict(call, cwd=self.w.work, urls=self.urls, flags=self.trace["world"].get("start_flags") or []),
+                              env=env, cwd=self.w.work)
 
     # ---------------- the simulated peer (requests)
     def fake_requests(self):
@@ -935,6 +952,10 @@ class Runner:
                 self.violate("W1", dict(sig, what="diff"),
                              "diff differs from what a fresh process computes for %r (request #%d of client %d)" % (args, xi, ci))
                 return
+            if self.trace["world"].get("start_flags"):
+                # (a diff restricted by start-up options says nothing about the ignored parts: no round trip)
+                self.stat("probe_diff_agreed_under_startup_flags")
+                return
             if core.canon(theirs["patched"]) != core.canon(theirs["remote"]):
                 # Python's == conflates True/1/1.0 and False/0/0.0; canonical JSON does not.  Tell that specific
                 # failure shape apart so that any other patch mismatch is still reported on its own.
@@ -1237,7 +1258,7 @@ def coverage(agg):
         "file equality after nbformat's own write/read normalisation",
         "reference answers come from forks of a pristine interpreter reading the same sandbox files",
         "error status means >= 400 or a closed connection; the statement does not prescribe which code",
-        "server started without ignore flags (option handling is C12/C14/C19)",
+        "a quarter of the non-plain sessions start the server with diff options (-O, -s, -M ...); the reference process applies the same options, and the base+diff round trip is only demanded without them",
     ]
     return cov, rule, assumptions
 
